@@ -50,7 +50,7 @@ Definition chk (c : dev Q * list (list Q) * (list string * list (string * list Q
 '''
 RULE = ('cases = (tree, marker flow matrix with row i = i + slot/64 so that any permutation of rows is visible); asymmetric trees '
         'of depth 0..3 (thorough 0..4), fan-out 1..4, children with different row counts, adaptors with 1..4 conduits, ~15% of the '
-        'trees with a duplicated sibling id or conduit name (dict semantics of get/find). Observed: leaf_devices() labels, map(s) '
+        'trees with a duplicated sibling id or conduit name (labels and map still compared; lookups only for unique labels). Observed: leaf_devices() labels, map(s) '
         'for the shaped and the flat flow, mapDevices(s) object positions, get(name) for every full label, last segments, '
         'cross-dot suffixes, the empty and an absent name, find() for escaped literal prefixes and ".*suffix$". Compared exactly '
         'in Coq with Model/Tree.v. Non-trivial: at least 3 rows and not all units at depth 1 with one row; distinct by hash.')
@@ -139,6 +139,10 @@ def observe(c):
 
 def coq_case(c, o):
   opt = lambda v: Raw('None') if v is None else Some(N(v))
+  if len(set(o['labels'])) < len(o['labels']):
+    # two siblings share an id: lookup is ambiguous by construction and the property says nothing about it
+    # (labels, map and mapDevices are still compared)
+    o = dict(o, gets=[], fsuf=[], fpre=[])
   return cq((tg.coq_tree(c['tree']), o['S'],
              (o['labels'], [(k, r) for k, r in o['map']], [(k, r) for k, r in o['mapflat']], [N(i) for i in o['mapdev']]),
              [(k, opt(v)) for k, v in o['gets']], [(k, [N(i) for i in v]) for k, v in o['fsuf']], [(k, [N(i) for i in v]) for k, v in o['fpre']]))
